@@ -1,6 +1,9 @@
 package main
 
-import "bytes"
+import (
+	"bytes"
+	"strings"
+)
 
 // parseRes is the uniform view of one parser call used by the C01/C03 oracles.
 type parseRes struct {
@@ -82,4 +85,27 @@ func checkFraming(name string, p parser, w []byte, res parseRes, allCuts bool) [
 		}
 	}
 	return fails
+}
+
+func init() {
+	// !exact <op> <hex>: <hex> is, by construction, exactly one well-formed encoding for reader <op>.
+	reg("!exact", func(a []string) (string, []Fail) {
+		f, ok := ops[a[0]]
+		if !ok {
+			return "no-such-op", []Fail{fail("HARNESS", "no-such-op", "unknown op %s", a[0])}
+		}
+		out, _ := f(a[1:])
+		var fails []Fail
+		switch {
+		case !strings.HasPrefix(out, "ok"):
+			for _, p := range []string{"C03", "C02"} {
+				fails = append(fails, fail(p, "exact-encoding:rejected:"+a[0], "%s rejects an encoding built as exactly one well-formed structure (%d bytes)", a[0], len(a[1])/2))
+			}
+		case strings.Contains(out, "rem=") && !strings.Contains(out, "rem=0 ") && !strings.HasSuffix(out, "rem=0"):
+			for _, p := range []string{"C03", "C02", "C01"} {
+				fails = append(fails, fail(p, "exact-encoding:remainder:"+a[0], "%s does not consume exactly the %d bytes of a well-formed structure: %s", a[0], len(a[1])/2, trunc(out, 40)))
+			}
+		}
+		return trunc(out, 24), fails
+	})
 }
